@@ -4,7 +4,7 @@ import json
 META = {
     "level": "model_checking",
     "technique": "TLA+ model of the mplex receive side (substream table, per-stream buffers, open buffer, pending frames, blocking stream) against a raw frame injector model-checked for the limits/no-loss invariants (canary: off-by-one in on_open); a real Multiplex endpoint is driven against a raw frame injector (frames encoded with the crate's codec, flooding without flow control) with scripted slow readers, and the substream table snapshots, API results and wire output are validated by TLC against the property-level trace spec",
-    "text": "TLC exhaustively checks the transcribed receive side (2-3 stream ids, max_substreams 1-2, max_buffer_len 1, Block and ResetStream, 3 data frames per stream). A real Multiplex over a scripted pipe is flooded by an injector (open floods, data floods on accepted / not yet accepted / locally opened streams, zero-length frames, remote close/reset, unwritable wire) for a grid of (max_substreams, max_buffer_len, behaviour, read chunking) plus seeded random schedules; after every application op the table snapshot (verif hook) must respect both limits, resets must be justified (table full / overflow / drop), reads must be prefixes of what was injected, EOF only after all bytes, and after a final drain nothing may be missing (Block) or only after an overflow answered with Reset (ResetStream).",
+    "text": "TLC exhaustively checks the transcribed receive side (2-3 stream ids, max_substreams 1-2, max_buffer_len 1, Block and ResetStream, 3 data frames per stream). A real Multiplex over a scripted pipe is flooded by an injector (incl. a close of a remotely closed substream while the frame sink is back-pressured with > 128 KiB, after which the buffered data and EOF must still be read; open floods, data floods on accepted / not yet accepted / locally opened streams, zero-length frames, remote close/reset, unwritable wire) for a grid of (max_substreams, max_buffer_len, behaviour, read chunking) plus seeded random schedules; after every application op the table snapshot (verif hook) must respect both limits, resets must be justified (table full / overflow / drop), reads must be prefixes of what was injected, EOF only after all bytes, and after a final drain nothing may be missing (Block) or only after an overflow answered with Reset (ResetStream).",
     "note": "Substream table size and buffer lengths are observed through a read-only verif hook after every application-level op, not inside a poll. Remote stream ids are never reused within a run.",
     "design_ref": "6/C26",
 }
